@@ -14,6 +14,7 @@ Encoding (all dyadic, hence exact in binary floating point):
 """
 from __future__ import annotations
 
+import json
 import os
 import shutil
 import tempfile
@@ -248,7 +249,7 @@ def abstract_time(t, dts_by_code):
 class Script:
     """Environment choices of one TdglRun behaviour."""
 
-    def __init__(self, cfg, tdts, simdts, flog, probes=0, screening=False, progress=0):
+    def __init__(self, cfg, tdts, simdts, flog, probes=0, screening=False, progress=0, prior=None):
         self.cfg = cfg
         self.tdts = list(tdts)
         self.simdts = list(simdts)
@@ -256,14 +257,18 @@ class Script:
         self.probes = probes
         self.screening = screening
         self.progress = progress
+        # history: an earlier run of the same process written to the SAME output path and removed with
+        # os.remove before this run starts (dict(k, solveT, simdts)); state must not leak between runs
+        self.prior = prior
 
     def key(self):
         return (tuple(sorted((k, str(v)) for k, v in self.cfg.items())), tuple(self.tdts), tuple(self.simdts),
-                tuple(tuple(sorted(f.items())) for f in self.flog), self.probes, self.screening, self.progress)
+                tuple(tuple(sorted(f.items())) for f in self.flog), self.probes, self.screening, self.progress,
+                json.dumps(self.prior, sort_keys=True))
 
     def to_json(self):
         return {"cfg": self.cfg, "tdts": self.tdts, "simdts": self.simdts, "flog": self.flog,
-                "probes": self.probes, "screening": self.screening, "progress": self.progress}
+                "probes": self.probes, "screening": self.screening, "progress": self.progress, "prior": self.prior}
 
 
 class _FaultyDict(dict):
@@ -291,12 +296,40 @@ def replay(tdgl, script: Script, base_tmp: str | None = None):
     from tdgl.solver import runner as runner_mod
     from tdgl.solver.solver import TDGLSolver
 
+    if script.prior is not None:
+        return _replay_with_prior(tdgl, script, base_tmp)
+    return _replay(tdgl, script, base_tmp)
+
+
+def _replay_with_prior(tdgl, script, base_tmp):
+    """Run the prior script and the main script in ONE sandbox directory with the same relative and
+    absolute output path; the prior's output is removed with os.remove in between."""
+    sandbox = Path(tempfile.mkdtemp(prefix="sbxh", dir=base_tmp))
+    try:
+        pr = script.prior
+        prior = Script(dict(k=pr["k"], solveT=pr["solveT"], skipT=0, out="path", foreign=[], bad="none"), [], pr["simdts"], pr.get("flog", []),
+                       probes=script.probes, screening=script.screening, progress=script.progress)
+        _replay(tdgl, prior, base_tmp, sandbox=sandbox, keep=True)
+        for p in list(sandbox.iterdir()):
+            if p.is_file():
+                os.remove(p)
+        main = Script(script.cfg, script.tdts, script.simdts, script.flog, script.probes, script.screening, script.progress)
+        return _replay(tdgl, main, base_tmp, sandbox=sandbox, keep=True)
+    finally:
+        shutil.rmtree(sandbox, ignore_errors=True)
+
+
+def _replay(tdgl, script, base_tmp=None, sandbox=None, keep=False):
+    from tdgl.solver import runner as runner_mod
+    from tdgl.solver.solver import TDGLSolver
+
     cfg = script.cfg
     k = cfg["k"]
     foreign = list(cfg.get("foreign", []))
-    sandbox = Path(tempfile.mkdtemp(prefix="sbx", dir=base_tmp))
+    if sandbox is None:
+        sandbox = Path(tempfile.mkdtemp(prefix="sbx", dir=base_tmp))
     tempd = sandbox / "tmpd"
-    tempd.mkdir()
+    tempd.mkdir(exist_ok=True)
     for n in foreign:
         fname = [f for f, m in FILEMAP.items() if m == n][0]
         (sandbox / fname).write_bytes(FOREIGN_BYTES)
@@ -482,7 +515,8 @@ def replay(tdgl, script: Script, base_tmp: str | None = None):
     finally:
         tempfile.tempdir = old_tempdir
         os.chdir(cwd)
-        shutil.rmtree(sandbox, ignore_errors=True)
+        if not keep:
+            shutil.rmtree(sandbox, ignore_errors=True)
     return trace
 
 
